@@ -21,6 +21,38 @@ func setBal(w *World, addr, denom, v *Term) {
 func (x *Exec) bankTransfer(s *State, ctx *Value, from, to *Term, coins *Value, extraFail *Term, tag string) *Term {
 	id, _ := x.ctxWorld(s, ctx)
 	if coins.Conc == nil {
+		if coins.K == KSlice && coins.Elem != nil && coins.Len != nil && len(coins.Elem.Fields) == 2 {
+			// coin list of symbolic length. The bank rejects a list that is not valid (sorted by denom, hence without
+			// duplicates; positive amounts), so on success the amount moved per denom is a function amt(d) with
+			// amt(denom_j) = amount_j for every position j and amt(d) >= 0 for every d; nothing else changes. The
+			// outcome (success / error) is left open; on error nothing changes. (amt(d) = 0 for denoms not in the list
+			// is not stated: claims about untouched denoms cannot be proved through this model.)
+			x.note("bank transfer of a coin list of symbolic length: modelled by a per-denom amount function (valid coin lists have distinct denoms) (%s)", tag)
+			w0 := s.Worlds[id]
+			amt := Fresh("coins.amt."+tag, SArr(SInt, SInt))
+			j := x.qvar("j")
+			el := selectV(coins.Elem, j)
+			dj, aj := el.Fields[0].T, el.Fields[1].T
+			s.Assume(Forall([]*Term{j}, Implies(And(Le(Zero, j), Lt(j, coins.Len)), And(Eq(Select(amt, dj), aj), Gt(aj, Zero)))))
+			d := x.qvar("d")
+			s.Assume(Forall([]*Term{d}, Ge(Select(amt, d), Zero)))
+			nb := Fresh("bal.sent."+tag, w0.Bal.S)
+			a := x.qvar("a")
+			old := Select(Select(w0.Bal, a), d)
+			delta := Ite(Eq(from, to), Zero, Ite(Eq(a, from), Neg(Select(amt, d)), Ite(Eq(a, to), Select(amt, d), Zero)))
+			s.Assume(Forall([]*Term{a, d}, Eq(Select(Select(nb, a), d), Add(old, delta))))
+			s.Assume(Forall([]*Term{d}, Ge(Select(Select(w0.Bal, from), d), Zero)))
+			okc := Fresh("bank.ok."+tag, SBool)
+			s.Assume(Implies(okc, Forall([]*Term{d}, Ge(Select(Select(w0.Bal, from), d), Select(amt, d)))))
+			if extraFail != nil {
+				s.Assume(Implies(okc, Not(extraFail)))
+			}
+			e := Fresh("err.bank."+tag, SInt)
+			s.Assume(Neq(e, Zero))
+			w := s.MutWorld(id)
+			w.Bal = Ite(okc, nb, w0.Bal)
+			return Ite(okc, Zero, e)
+		}
 		// symbolic coin list: ledger of both parties havocked, outcome unknown
 		x.note("bank transfer of a coin list of symbolic length: balances havocked (%s)", tag)
 		w := s.MutWorld(id)
@@ -169,4 +201,14 @@ func init() {
 		return []*Value{prim(Fresh("addr", SInt), x.resType(c, 0))}
 	}
 	builtins["iface:AccountI.GetAddress"] = builtins["iface:ModuleAccountI.GetAddress"]
+}
+
+// qvar makes a fresh bound variable for a quantifier built by a model (registered like the contract evaluator's).
+func (x *Exec) qvar(n string) *Term {
+	bv := Fresh("q."+n, SInt)
+	if x.qVars == nil {
+		x.qVars = map[*Term]bool{}
+	}
+	x.qVars[bv] = true
+	return bv
 }
